@@ -253,10 +253,13 @@ def s6(ctx, rep):
     cst = cfg_of(st)
     from ..engine import dict_items as _di
     ret = [(_di(r.value) or {}) for r in returns_of(st)]
-    tcn = U(ret[0]["task_continues"]) if ret and "task_continues" in ret[0] else "?"
+    # the places where the answer 'does not continue' is fixed: the flag set to False, or a result returned with the constant False
+    tcns = {U(d_["task_continues"]) for d_ in ret if "task_continues" in d_ and isinstance(d_["task_continues"], ast.Name)}
     rvn = vars_assigned_from(st, lambda v: isinstance(v, ast.Subscript) and "_resource_attr" in U(v.slice))
-    f0 = [n for n in cst.nodes if n.kind == "stmt" and isinstance(n.ast, ast.Assign) and U(n.ast.targets[0]) == tcn
+    f0 = [n for n in cst.nodes if n.kind == "stmt" and isinstance(n.ast, ast.Assign) and U(n.ast.targets[0]) in tcns
           and isinstance(n.ast.value, ast.Constant) and n.ast.value.value is False]
+    f0 += [n for n in cst.nodes if n.kind == "stmt" and isinstance(n.ast, ast.Return) and isinstance((_di(n.ast.value) or {}).get("task_continues"), ast.Constant)
+           and (_di(n.ast.value) or {})["task_continues"].value is False]
     ok = len(f0) == 1 and len(rvn) == 1 and any(a[0] == "eq" and a[3] is True and {a[1], a[2]} == {rvn[0], "self._max_t"}
                                                    for a in ctx.facts(st).at(f0[0].id))
     rep.put(ok, "S6", "guarded_by", "StoppingRungSystem.on_task_report: at max_t the task does not continue", st, None, "")
@@ -280,13 +283,22 @@ def s7(ctx, rep):
     if ok:
         lc = pq[0]
         g = lc.generators[0]
-        ok = isinstance(lc.elt, ast.BinOp) and isinstance(lc.elt.op, ast.Div) and isinstance(g.target, ast.Tuple) and \
-            [U(e) for e in g.target.elts] == [U(lc.elt.left), U(lc.elt.right)] and isinstance(g.iter, ast.Call) and fn_name(g.iter) == "zip"
-        if ok:
+        from ..engine import deref
+        ok = isinstance(lc.elt, ast.BinOp) and isinstance(lc.elt.op, ast.Div) and isinstance(g.target, ast.Tuple) and len(g.target.elts) == 2 \
+            and isinstance(g.iter, ast.Call)
+        if ok and fn_name(g.iter) == "zip" and len(g.iter.args) == 2:
+            # pairs (level, next level) from zip(levels, levels[1:] + [max_t])
             a0, a1 = g.iter.args
-            ok = U(a0) == "rung_levels"
-            from ..engine import deref
-            ok = ok and U(deref(f, a1)).replace(" ", "") == "rung_levels[1:]+[max_t]"
+            ok = [U(e) for e in g.target.elts] == [U(lc.elt.left), U(lc.elt.right)] and U(a0) == "rung_levels" and \
+                U(deref(f, a1)).replace(" ", "") == "rung_levels[1:]+[max_t]"
+        elif ok and fn_name(g.iter) == "enumerate" and len(g.iter.args) == 1:
+            # level / next_levels[j] for j, level in enumerate(levels)
+            jv, lv_ = U(g.target.elts[0]), U(g.target.elts[1])
+            r_ = lc.elt.right
+            ok = U(g.iter.args[0]) == "rung_levels" and U(lc.elt.left) == lv_ and isinstance(r_, ast.Subscript) and U(r_.slice) == jv and \
+                U(deref(f, r_.value)).replace(" ", "") == "rung_levels[1:]+[max_t]"
+        else:
+            ok = False
         why = f"promote_quantiles = {U(lc)} with second list {U(argn(g.iter, 1)) if isinstance(g.iter, ast.Call) and len(g.iter.args) > 1 else '?'}"
     rep.put(ok, "S7", "agreement", "HyperbandBracketManager.__init__: q_j = level_j / level_{j+1} (last: / max_t)", f, pq[0] if pq else None, "",
             why + ": the promotion quantile is not level / next level")
